@@ -140,6 +140,22 @@ def install():
 
     a_dh.DH.__init__ = dh_init
 
+    # -- ML-KEM: key generation from the DRBG (the encapsulation randomness
+    # of the responder stays inside the primitive and is not seedable) ----
+    from asyncssh.crypto import pq as a_pq
+
+    if hasattr(a_pq, '_PyCAKEM'):
+        real_pq_init = a_pq._PyCAKEM.__init__
+
+        def pq_init(self, alg_name):
+            real_pq_init(self, alg_name)
+
+            if _state['drbg'] is not None and \
+                    hasattr(self._priv_cls, 'from_seed_bytes'):
+                self._priv_key = self._priv_cls.from_seed_bytes(_urandom(64))
+
+        a_pq._PyCAKEM.__init__ = pq_init
+
     # -- RSA key exchange: transient key and OAEP seed -------------------------
     import hashlib as _hl
     from asyncssh.crypto import rsa as a_rsa
